@@ -99,7 +99,8 @@ def optimize_prec_assignment(model: MPS,
                         for _ in range(int(round(float(w_theta_alpha_array_tmp[i]) * n_ch))):
                             w_theta_alpha_array_tmp[i] -= (1. / layer.w_mps_quantizer.theta_alpha.shape[1])
                             w_theta_alpha_array_tmp[j] += (1. / layer.w_mps_quantizer.theta_alpha.shape[1])
-                            cost_tmp = _compute_cost(model, layer, w_theta_alpha_array_tmp, cost_fn_map, lname, node)
+                            cost_tmp = _compute_cost(model, layer, w_theta_alpha_array_tmp, cost_fn_map, lname, node,
+                                                     sorted_precisions)
                             if cost_tmp < best_cost:
                                 best_cost = cost_tmp
                                 best_cost_w_theta_alpha_array = copy.deepcopy(w_theta_alpha_array_tmp) # TODO: check sorting!!!
@@ -127,7 +128,8 @@ def optimize_prec_assignment(model: MPS,
                         for _ in range(int(round(float(w_theta_alpha_array_tmp[i]) * n_ch))):
                             w_theta_alpha_array_tmp[i] -= (1. / layer.w_mps_quantizer.theta_alpha.shape[1])
                             w_theta_alpha_array_tmp[j] += (1. / layer.w_mps_quantizer.theta_alpha.shape[1])
-                            cost_tmp = _compute_cost(model, layer, w_theta_alpha_array_tmp, cost_fn_map, lname, node)
+                            cost_tmp = _compute_cost(model, layer, w_theta_alpha_array_tmp, cost_fn_map, lname, node,
+                                                     sorted_precisions)
                             if cost_tmp < best_cost:
                                 best_cost = cost_tmp
                                 best_cost_w_theta_alpha_array = copy.deepcopy(w_theta_alpha_array_tmp)
@@ -170,16 +172,19 @@ def optimize_prec_assignment(model: MPS,
     return model
 
 
-def _compute_cost(model, layer, w_theta_alpha_array, cost_fn_map, lname, node):
+def _compute_cost(model, layer, w_theta_alpha_array, cost_fn_map, lname, node, w_precisions=None):
     """Compute the cost of the layer with the given configuration. The cost is computed
     as the product of the theta alpha values of the input and weight quantizers and the
-    cost function of the layer.
+    cost function of the layer. `w_precisions` are the weight precisions the entries of
+    `w_theta_alpha_array` refer to (default: the order of the precisions in the quantizer).
     """
+    if w_precisions is None:
+        w_precisions = layer.w_mps_quantizer.precision
     cost = torch.zeros((len(layer.in_mps_quantizer.precision),
                         len(layer.w_mps_quantizer.precision)))
     for i, (in_prec, in_theta_alpha) in enumerate(zip(layer.in_mps_quantizer.precision,
                                                     layer.in_mps_quantizer.theta_alpha)):
-        for j, (w_prec, w_theta_alpha) in enumerate(zip(layer.w_mps_quantizer.precision,
+        for j, (w_prec, w_theta_alpha) in enumerate(zip(w_precisions,
                                                         w_theta_alpha_array)):
             spec = layer.get_modified_vars()
             spec['in_format'] = int
